@@ -24,7 +24,8 @@ Permitted(e) ==
 BadLeaves(e) == {i \in 1..Len(e.leaves) :
                     ~LeafOK(e.leaves[i].p, e.leaves[i].t, e.leaves[i].c, {e.excl[j] : j \in 1..Len(e.excl)}, e.entry)}
 
-LikeModel(e) == e.shape = "same" => e.otree = Obfuscate(e.doc, {e.excl[i] : i \in 1..Len(e.excl)}, e.entry)
+\* ("deep": the document is nested deeper than the JSON reader takes as a tree; it is judged leaf by leaf only)
+LikeModel(e) == (e.shape = "same" /\ ~e.deep) => e.otree = Obfuscate(e.doc, {e.excl[i] : i \in 1..Len(e.excl)}, e.entry)
 
 \* the variables of ObfI are not used by the validation
 TInit == l = 0 /\ doc = Leaf("s") /\ excl = {} /\ entry = "json" /\ ph = 1
